@@ -80,6 +80,8 @@ async def play_asgi(sc, order, timing):
             msgs.append({"type": "http.disconnect"})
             break
         msgs.append({"type": "http.request", "body": c, "more_body": i < len(ch)})
+        if i == len(ch) and timing in ("sleep0", "late"):
+            del msgs[-1]["more_body"]        # optional in ASGI, default False
     calls = [0]
     returned = [0]
     events = []
